@@ -76,6 +76,8 @@ def gen_script(rnd, tier):
     # ... then class-provided interfaces and instance declarations, pickled while the class declarations are settled
     nc = nreal
     for c in range(1, nc + 1):
+        if rnd.random() < 0.4:
+            L.append("mimpl %d : %d" % (c, rnd.randint(1, n)))          # (for the classes that have a metaclass of their own)
         if rnd.random() < 0.6:
             xs = rnd.sample(range(1, n + 1), rnd.randint(1, min(2, n)))
             L.append("cprov %d : %s" % (c, " ".join(map(str, xs))))
